@@ -125,9 +125,28 @@ def build(q, alias):
     return Inquiry(resource=vals['resource'], action=vals['action'], subject=vals['subject'], context=vals['context'])
 
 
+def _interfere(kind):
+    """serialise some other vakt object: the JSON encoder options are process-global, so what another object asked
+    for must not leak into the next Inquiry comparison"""
+    import vakt
+    from vakt.rules.operator import Eq
+    from vakt.guard import Inquiry
+    if kind == 'policy':
+        vakt.Policy(1, subjects=['a'], context={'k': Eq(1)}).to_json()
+    elif kind == 'rule':
+        Eq({'b': 1, 'a': 2}).to_json()
+    elif kind == 'inquiry_unsorted':
+        Inquiry(subject={'b': 1, 'a': 2}).to_json()
+    elif kind == 'policy_sorted':
+        vakt.Policy(1, subjects=['a']).to_json(sort=True)
+
+
 def observe(c):
     a = build(c['a'], c.get('alias_a', False))
     b = build(c['b'], c.get('alias_b', False))
+    if c.get('between'):
+        hash(a)
+        _interfere(c['between'])
     return '%s %d %d %s ## %s' % (s_bool(a == b), hash(a), hash(b), a.to_json_sorted(), b.to_json_sorted())
 
 
@@ -152,7 +171,8 @@ class PairStream(Stream):
             'nested to depth 3): the second is a key-order permutation at every depth, a one-point mutation, or '
             'unrelated; each pair is built with fresh sub-objects and again with aliased sub-objects (one shared '
             'list/dict object in several places); compared: ==, both hashes (exact values), both to_json_sorted() '
-            'texts; the whole batch is re-evaluated in three interpreter processes with different PYTHONHASHSEED. '
+            'texts; in 30% of the cases another vakt object (Policy, Rule, Inquiry) is serialised - sorted or unsorted - '
+            'between two uses of the pair; the whole batch is re-evaluated in three interpreter processes with different PYTHONHASHSEED. '
             'non-trivial = pair with nesting depth >= 2 and a dictionary with >= 2 keys')
 
     def corpus(self):
@@ -197,7 +217,11 @@ class PairStream(Stream):
             a = {k: jv(v) for k, v in qa.items()}
             b = {k: jv(v) for k, v in qb.items()}
             al = rng.random() < 0.4
-            out.append({'a': a, 'b': b, 'alias_a': al, 'alias_b': al and rng.random() < 0.5})
+            case = {'a': a, 'b': b, 'alias_a': al, 'alias_b': al and rng.random() < 0.5}
+            if rng.random() < 0.3:
+                # another JsonSerializer object is dumped between two uses of the inquiries
+                case['between'] = rng.choice(['policy', 'rule', 'inquiry_unsorted', 'policy_sorted'])
+            out.append(case)
         self._cases = out
         self._multi = None
         return out[len(self.corpus()):]
